@@ -16,7 +16,7 @@ def run_bench(bench, workdir, tag, mode="dfs", threads=1, max_runs=2000, seed=1,
     inp = os.path.join(workdir, tag + ".in.json")
     outp = os.path.join(workdir, tag + ".trace.ndjson")
     with open(inp, "w") as f:
-        json.dump(dict(bench={k: bench[k] for k in ("models", "cap", "prog", "ports", "initprog", "sinks", "procs")},
+        json.dump(dict(bench={k: bench[k] for k in ("models", "cap", "prog", "ports", "initprog", "sinks", "procs", "sources") if k in bench},
                        mode=mode, threads=threads, max_runs=max_runs, seed=seed, yields=yields, delay_us=delay_us,
                        first_id=first_id, sweep_point=sweep_point, sweep_worker=sweep_worker), f)
     try:
